@@ -99,13 +99,21 @@ func inState(x sdk.Int) sdk.Int {
 	return x
 }
 
+// priceDenom: the denomination in which the builders' bindings publish their price (scenes with a host
+// application that knows a second token set it; the deposit stays in the base denomination)
+var priceDenom = Denom
+
 func Binding(k keeper.Keeper, ctx sdk.Context, tag, svc string, provider, owner sdk.AccAddress, nT, nV int, allowZero bool) BindingSpec {
 	b := BindingSpec{Provider: provider, Owner: owner, Present: true}
 	b.Deposit = inState(vf.Amount(tag + ".deposit"))
 	if !allowZero {
 		vf.Assume(b.Deposit.IsPositive())
 	}
-	b.Text = vf.PricingText(tag+".pricing", nT, nV)
+	if priceDenom == Denom {
+		b.Text = vf.PricingText(tag+".pricing", nT, nV)
+	} else {
+		b.Text = vf.PricingTextIn(tag+".pricing", priceDenom, nT, nV)
+	}
 	p, err := k.ParsePricing(ctx, b.Text)
 	vf.Assume(err == nil)
 	vf.Assume(types.ValidatePricing(p) == nil)
